@@ -1,3 +1,107 @@
-import GV.Model.Engine
+/-
+  Props/C07.lean — One faithful CONNECT first, nothing before CONNACK, nothing after DISCONNECT.
+  About Model/Engine.lean: `handle_network_event_connection_opened`, `create_connect`, `handle_connack`,
+  `build_negotiated_settings`, the state gate of `service_queue_aux` (protocol.rs).
+-/
+import GV.Proofs.EngineBasics
 namespace GV.Props.C07
+open GV
+
+/-- **Opening a connection queues exactly one CONNECT at the very front** and arms the CONNACK deadline. -/
+theorem opened_queues_connect_first (e : Engine) (deadline : Nat) (h : e.state = .disconnected) :
+    let e' := (e.handleOpened deadline).1
+    (e.handleOpened deadline).2 = .ok ∧ e'.state = .pendingConnack ∧ e'.highQ = e.nextOpId :: e.highQ ∧
+    (e'.op? e.nextOpId).map (·.packet) = some e.createConnect ∧ e'.connackDeadline = some deadline ∧
+    e'.current = none ∧ e'.pendingWrite = false := by
+  simp [Engine.handleOpened, h, Engine.createOp, Engine.enqueue, Engine.op?, lookup_mapInsert_self, Engine.createConnect]
+
+/-- a second "connection opened" without a close in between is an internal error and halts the engine -/
+theorem opened_twice_is_error (e : Engine) (deadline : Nat) (h : e.state ≠ .disconnected) :
+    (e.handleOpened deadline).2 = .err "InternalStateError" ∧ (e.handleOpened deadline).1.state = .halted := by
+  have : (e.state != .disconnected) = true := by simp [h]
+  simp [Engine.handleOpened, this]
+
+/-- **The CONNECT reflects the configured options.**  Clean start follows the rejoin policy and the history. -/
+theorem connect_reflects_options (o : ConnectOpts) (prev : Bool) :
+    let c := o.toPacket prev
+    c.keepAlive = o.keepAlive.getD 0 ∧ c.clientId = o.clientId ∧ c.username = o.username ∧ c.password = o.password ∧
+    c.sessionExpiry = o.sessionExpiry ∧ c.requestResponseInfo = o.requestResponseInfo ∧ c.requestProblemInfo = o.requestProblemInfo ∧
+    c.receiveMaximum = o.receiveMaximum ∧ c.topicAliasMaximum = o.topicAliasMaximum ∧ c.maximumPacketSize = o.maximumPacketSize ∧
+    c.willDelay = o.willDelay ∧ c.will = o.will ∧ c.userProps = o.userProps ∧
+    c.cleanStart = (match o.rejoin with | .postSuccess => !prev | .always => false | .never => true) := by
+  simp only [ConnectOpts.toPacket]
+  cases o.rejoin <;> simp
+
+/-- **A server-assigned client id is reused** on later connections when the user configured none. -/
+theorem assigned_client_id_reused (e : Engine) (s : Settings) (hs : e.settings = some s) (hc : e.cfg.connect.clientId = none) :
+    ∃ c, e.createConnect = .connect c ∧ c.clientId = some s.clientId := by
+  simp [Engine.createConnect, ConnectOpts.toPacket, hc, hs]
+
+theorem configured_client_id_kept (e : Engine) (cid : Bytes) (hc : e.cfg.connect.clientId = some cid) :
+    ∃ c, e.createConnect = .connect c ∧ c.clientId = some cid := by
+  simp [Engine.createConnect, ConnectOpts.toPacket, hc]
+
+/-- **Nothing but the high-priority queue is served before CONNACK**: in the handshake the queue service never
+    takes from the user or resubmit queue. -/
+theorem handshake_sends_only_high_priority (e : Engine) (hq : e.highQ = []) : (e.dequeue false).2 = none := by
+  unfold Engine.dequeue
+  split
+  · rfl
+  · simp [hq]
+
+/-- **After a DISCONNECT has been written (state PendingDisconnect) or in any state but PendingConnack /
+    Connected the queue service emits nothing.** -/
+theorem nothing_sent_outside_connection (e : Engine) (all : Bool) (cap fuel : Nat)
+    (h : e.state ≠ .pendingConnack ∧ e.state ≠ .connected) :
+    Engine.serviceQueueAux all cap fuel e = (e, .ok) := by
+  cases fuel with
+  | zero => rfl
+  | succ f =>
+    have : (e.state == .pendingConnack || e.state == .connected) = false := by simp [h.1, h.2]
+    simp [Engine.serviceQueueAux, this]
+
+/-- writing the DISCONNECT moves the engine to PendingDisconnect -/
+theorem disconnect_written_ends_sending (e : Engine) (id : Nat) (o : Op) (d : Disconnect)
+    (hc : e.current = some id) (ho : e.op? id = some o) (hp : o.packet = .disconnect d) :
+    ∃ e', e.onFullyWritten = some e' ∧ e'.state = .pendingDisconnect := by
+  simp only [Engine.onFullyWritten, hc, ho, hp]
+  refine ⟨_, rfl, ?_⟩
+  simp only [Engine.startAckTimeout]
+  split <;> simp [Engine.setOp]
+
+/-- **A failing CONNACK is a connection error**, reported to the application, and the engine does not become connected. -/
+theorem failing_connack_is_error (e : Engine) (c : Connack) (hs : e.state = .pendingConnack) (hrc : c.reasonCode ≠ 0) :
+    (e.handleConnack c).2 = .err "ConnectionEstablishmentFailure" ∧ (e.handleConnack c).1.state = .pendingConnack := by
+  simp [Engine.handleConnack, hs, hrc]
+
+/-- **A CONNACK in any state other than PendingConnack (repeated, unsolicited) is a protocol error.** -/
+theorem unsolicited_connack_is_error (e : Engine) (c : Connack) (hs : e.state ≠ .pendingConnack) :
+    e.handleConnack c = (e, .err "ProtocolError") := by
+  have : (e.state != .pendingConnack) = true := by simp [hs]
+  simp [Engine.handleConnack, this]
+
+/-- **Data arriving before the CONNECT has even been taken from the queue is a protocol error** (CONNACK
+    before CONNECT). -/
+theorem data_before_connect_is_error (e : Engine) (bs : Bytes) (hs : e.state = .pendingConnack)
+    (hq : e.highQ.any (isConnectOp e) = true) :
+    (e.handleData bs).2 = .err "ProtocolError" ∧ (e.handleData bs).1.state = .halted := by
+  simp [Engine.handleData, hs, hq]
+
+/-- **No CONNACK by the deadline is a connection-establishment failure.** -/
+theorem connack_timeout (e : Engine) (cap prefill d : Nat) (hs : e.state = .pendingConnack) (hd : e.connackDeadline = some d)
+    (ht : e.now ≥ d) : (e.service cap prefill).2 = .err "ConnectionEstablishmentFailure" ∧ (e.service cap prefill).1.state = .halted := by
+  simp [Engine.service, hs, hd, ht]
+
+/-- **Negotiated settings are the CONNACK's values, completed with the CONNECT's values or the
+    specification's defaults.** -/
+theorem settings_are_connack_values (e : Engine) (c : Connack) :
+    let s := e.buildSettings c
+    s.maximumQos = c.maximumQos.getD 2 ∧ s.receiveMaximum = c.receiveMaximum.getD 65535 ∧
+    s.maximumPacketSize = c.maximumPacketSize.getD 268435455 ∧ s.topicAliasMaximum = c.topicAliasMaximum.getD 0 ∧
+    s.retainAvailable = c.retainAvailable.getD true ∧ s.wildcardSubsAvailable = c.wildcardSubsAvailable.getD true ∧
+    s.subIdsAvailable = c.subIdsAvailable.getD true ∧ s.sharedSubsAvailable = c.sharedSubsAvailable.getD true ∧
+    s.sessionExpiry = c.sessionExpiry.getD (e.cfg.connect.sessionExpiry.getD 0) ∧
+    s.serverKeepAlive = c.serverKeepAlive.getD (e.cfg.connect.keepAlive.getD 0) ∧ s.rejoinedSession = c.sessionPresent := by
+  simp [Engine.buildSettings, maxVli]
+
 end GV.Props.C07
